@@ -7,8 +7,7 @@ import Nstd.Avl.LemmasHeapRemove3
   (the labels `rebalParent:` / `rebalParentUpwards:` are continuations: the `rebalParent` do-while loop = `removeRebal`, the
   `rebalParentUpwards` while loop = `removeUpwards`, the statements behind it = `removeTail`).  Proved here: for an item
   without left or without right child the complete function is the model's `step s (removeAt p)` — tree (`delIdx` with
-  the climb and its early exit), prev/next list, `_size`, free list, returned iterator.  The two-children paths (successor /
-  predecessor relinking + `removeRebal`) are translated and part of `remove`, but not proved: OPEN at the end of the file.
+  the climb and its early exit), prev/next list, `_size`, free list, returned iterator.  The two-children paths are proved in PropsComp5.lean.
 -/
 namespace Nstd.Avl
 open Tree
@@ -267,17 +266,10 @@ example : ∃ h1 p1 h2 p2 h3 q, Map.insertPlain 5 emptyHeap 0 7 70 = some (h1, p
   ⟨_, _, _, _, _, _, rfl, rfl, rfl, rfl, rfl, rfl, rfl, rfl, rfl, rfl⟩
 
 /-
-OPEN: the two-children paths of `remove(it)` — successor / predecessor choice (proved: `gen_remove_head_eq_model`), the
-relinking statements of the four sub-cases (neighbour adjacent / deeper), the loop `removeRebal` (`rebalParent:` do-while with
-its `parent = *cell` exit) — are translated (they are part of `Map.remove` / `Multi.remove` above) but not yet proved equal
-to the model's `removeRoot` / `popMin` / `popMax`.  Missing: (1) a representation lemma for the relinked heap: after the
-stores, cell `c` holds `node next.. l r'` where `r'` is `r` with its in-order first item unlinked (a context inside `r` from
-`next` up to `item->right`); (2) the loop invariant of `removeRebal`: climbing that inner context is `popMin`'s `goL` chain,
-the early exit re-updates and rebalances `*cell` (model: `removeRoot`'s `rebal (upd …)`), frame: nothing outside `r` / `l` and
-the cell changes; (3) that `item->next` IS the in-order first item of `r` (list = in-order, `inv_reach.order`).  The complete
-statement would be `gen_remove_trivial_eq_step` without the hypothesis `htriv`.  Also open: `remove(key)` (= `find` + `remove(it)`,
-one-line body, not translated), `removeFront` / `removeBack` (one-line bodies calling `remove`), the copy loops of the copy
-constructor / `operator=` / `insert(const Map&)` (they run over a second container: two heaps), `contains` (one-line body).
+The two-children paths of `remove(it)` are closed in PropsComp5.lean (`gen_remove_eq_step`, `gen_remove_key_eq_step`); the one-line
+bodies `contains` / `removeFront` / `removeBack` / `remove(key)` in PropsComp4.lean / PropsComp5.lean.
+OPEN: the copy loops of the copy constructor / `operator=` / `insert(const Map&)` run over a second container (two heaps) and are
+not translated; each `insert` they call is covered by `gen_insert_plain_eq_model` / `gen_insert_at_eq_model`.
 -/
 
 end Nstd.Avl
